@@ -362,4 +362,8 @@ theorem blockUndone_env (K : Keys) (mf : Nat) (s : State) (txs : List Tx) : Env 
   · exact Env.refl s
   · exact foldl_env _ (undoneStep_env K mf) _ s
 
+theorem blockUndoneAt_env (K : Keys) (mf : Nat) (s : State) (uh : Nat) (txs : List Tx) :
+    Env s (blockUndoneAt K mf s uh txs) :=
+  (blockUndone_env K mf s txs).trans (expire_env K _ _)
+
 end GocoinV.Mempool
